@@ -503,6 +503,9 @@ def traces_to_shards(outdir, summ):
         if (t.get("options") or {}).get("hasher_kind", "prod") != "prod" and all(
                 (it.get("type_url") or "").startswith("/regen.data.") for it in t["items"] if it["kind"] == "msg"):
             continue
+        if "#skip-model" in str(t.get("id", "")):
+            skipped[f] = "marked #skip-model by the generator (amounts of 100k digits)"
+            continue
         try:
             term = trace_case(cid, t)
         except OutOfModel as e:
